@@ -74,6 +74,10 @@ FIXED = [
      [('C05', 'docstring_with_doc_name', {'source': "'''doc'''\nprint(__doc__)\n", 'opts': o(OFF, remove_literal_statements=True)})]),
     ('1e86b9b', ['C05'], "annotated assignment nested in an if/try block of a class body was treated as a variable annotation: removed by default, even from dataclass fields",
      [('C05', 'nested_class_annotation', {'source': '@dataclass\nclass K:\n    a: int = 1\n    if cond:\n        b: int = 2\n        c: str\nclass L:\n    try:\n        d: int = 3\n    finally:\n        pass\n', 'opts': D})]),
+    ('52d7f61', ['C08', 'C02'], "subscript whose index is a tuple with a starred element ('x[(*a,)]') was printed 'x[*a,]', a syntax error on Python 3.9 and 3.10 (UnstableMinification)",
+     [('C08', 'starred_subscript_tuple_39', {'source': 'x[(*a,)]\ndel x[(*a, b)]\n', 'opts': OFF, 'interp': '3.9'}), ('C02', 'starred_subscript_tuple_39', {'source': 'x[(*a,)]\n', 'interp': '3.10'})]),
+    ('7a1b764', ['C08', 'C02'], "augmented assignment of a starred tuple ('x += (*a,)') was printed 'x+=*a,', a syntax error before Python 3.9 (UnstableMinification)",
+     [('C08', 'starred_augassign_38', {'source': 'x += (*a, b)\n', 'opts': OFF, 'interp': '3.8'}), ('C02', 'starred_augassign_38', {'source': 'x += (*a,)\n', 'interp': '3.6'})]),
 ]
 
 
